@@ -236,6 +236,57 @@ def run_mp_shim(task):
                 for f in fails:
                     add_fail(f, case, {"op": op, "ovar": ovar, "schedule": sched, "stats_mode": stats_mode,
                                        "stream_lengths": lengths})
+        # ---- one solver object used for several calls (the workers are forked from the caller's solvers, which no call
+        # changes: every call on the same MultiprocessingSolver must answer like the first)
+        try:
+            by_op = {}
+            for op, ovar in ops:
+                by_op[op] = (ovar, mpshim.record_streams(build_workers(case), op, ovar), sequential(case, op, ovar)[0])
+            oop = ops[1][0]
+            nsol = len(by_op["solve"][2])
+            plans = [["solve", "solve"], [oop, "solve"], ["solve", oop], [oop, oop]]
+            if nsol >= 1:
+                plans.append([("solve", rnd.randint(1, nsol)), "solve"])
+                plans.append([("solve", 1), oop, "solve"])
+            for plan in plans:
+                steps = []
+                for x in plan:
+                    op, ab = (x, None) if isinstance(x, str) else x
+                    ovar, streams, seq = by_op[op]
+                    steps.append({"op": op, "var": ovar, "streams": streams, "abandon": ab,
+                                  "schedule": mpshim.random_schedule([len(q) for q in streams], rnd)})
+                outs = mpshim.run_reducer_history(build_workers(case), steps, rnd.choice(("snapshot", "live")))
+                cnt("reuse_histories")
+                res["evals"] += 1
+                for k, (st, out) in enumerate(zip(steps, outs)):
+                    where = "call %d of history %r on one solver object, schedule %r" % (k + 1, plan, st["schedule"])
+                    fails = []
+                    if out["error"]:
+                        fails.append({"prop": "C11", "kind": "reused_solver_reducer_" + out["error"].split(":")[0],
+                                      "detail": where + ": " + out["error"]})
+                    elif out["abandoned"]:
+                        e = collections.Counter(by_op["solve"][2])
+                        g = collections.Counter(out["results"])
+                        if any(g[t] > e.get(t, 0) for t in g):
+                            fails.append({"prop": "C11", "kind": "reused_solver_solution_multiset_differs",
+                                          "detail": where + ": partial enumeration is not a sub-multiset"})
+                    else:
+                        cnt("reuse_calls_judged")
+                        if out["leftover"]:
+                            fails.append({"prop": "C11", "kind": "returned_before_all_workers_finished",
+                                          "detail": "%s: %d messages left" % (where, out["leftover"])})
+                        got = out["results"] if st["op"] == "solve" else out["result"]
+                        fails += [dict(f, kind="reused_solver_" + f["kind"]) for f in
+                                  judge_mp(case, st["op"], st["var"], got, by_op[st["op"]][2], st["streams"],
+                                           out.get("stats"), where=where)]
+                        if "stats_error" in out:
+                            fails.append({"prop": "C11", "kind": "reused_solver_get_statistics_raised",
+                                          "detail": where + ": " + out["stats_error"]})
+                    for f in fails:
+                        add_fail(f, case, {"history": [x if isinstance(x, str) else list(x) for x in plan], "call": k,
+                                           "ovar": ops[1][1]})
+        except Exception as e:
+            add_fail({"prop": "C11", "kind": "reuse_history_raised:" + type(e).__name__, "detail": str(e)[:300]}, case, {})
     res["wall"] = time.time() - t0
     res["task"] = {k: v for k, v in task.items() if k != "props"}
     return res
@@ -311,6 +362,25 @@ def run_mp_real(task):
 
                     exp_streams = mpshim.record_streams(build_workers(case), op, ovar)
                 fails += judge_mp(case, op, ovar, got, seq, exp_streams, stats, where="real processes")
+                if it < task.get("reuse_cases", 3) and not fails:
+                    # the same solver object once more (workers are forked again from the caller's untouched solvers)
+                    box2 = mpreal.call_with_oracle(call, wall_cap=task.get("wall_cap", 90))
+                    cnt("reuse_calls_real_processes")
+                    if box2["how"] == "returned":
+                        try:
+                            stats2 = ms.get_statistics()
+                        except Exception as e:
+                            stats2 = None
+                            fails.append({"prop": "C11", "kind": "reused_solver_get_statistics_raised",
+                                          "detail": str(e)[:200]})
+                        fails += [dict(f, kind="reused_solver_" + f["kind"]) for f in
+                                  judge_mp(case, op, ovar, box2["value"], seq, exp_streams, stats2,
+                                           where="real processes, second call on the same solver object")]
+                    elif box2["how"] == "raised":
+                        fails.append({"prop": "C11", "kind": "reused_solver_raised_without_fault", "detail": box2["exc"]})
+                    elif box2["how"] == "deadlock":
+                        fails.append({"prop": "C11", "kind": "reused_solver_deadlock_without_fault",
+                                      "detail": box2["detail"]})
             elif box["how"] == "raised":
                 fails.append({"prop": "C11", "kind": "raised_without_fault", "detail": box["exc"]})
             elif box["how"] == "deadlock":
@@ -387,6 +457,36 @@ def replay_mp(task):
     from framework.planes import mpshim
 
     w = task["witness"]
+    if "history" in w:
+        # several calls on one solver object: re-run the recorded history under a few seeded schedules
+        case = w["mpcase"]
+        fails = []
+        for seed in range(5):
+            rnd = random.Random(seed)
+            steps = []
+            refs = []
+            for x in w["history"]:
+                op, ab = (x, None) if isinstance(x, str) else x
+                ovar = w.get("ovar") if op != "solve" else None
+                if op != "solve" and ovar is None:
+                    ovar = 0
+                streams = mpshim.record_streams(build_workers(case), op, ovar)
+                refs.append(sequential(case, op, ovar)[0])
+                steps.append({"op": op, "var": ovar, "streams": streams, "abandon": ab,
+                              "schedule": mpshim.random_schedule([len(q) for q in streams], rnd)})
+            outs = mpshim.run_reducer_history(build_workers(case), steps)
+            for k, (st, out, ref) in enumerate(zip(steps, outs, refs)):
+                if out["error"]:
+                    fails.append({"prop": "C11", "kind": "reused_solver_reducer_" + out["error"].split(":")[0],
+                                  "detail": "call %d: %s" % (k + 1, out["error"])})
+                elif not out["abandoned"]:
+                    got = out["results"] if st["op"] == "solve" else out["result"]
+                    fails += [dict(f, kind="reused_solver_" + f["kind"]) for f in
+                              judge_mp(case, st["op"], st["var"], got, ref, st["streams"], out.get("stats"),
+                                       where="replay, call %d" % (k + 1))]
+            if fails:
+                break
+        return {"fails": [f for f in fails if f["prop"] == task["prop"]]}
     case, op, ovar = w["mpcase"], w["op"], w.get("ovar")
     seq, _ = sequential(case, op, ovar)
     solvers = build_workers(case)
